@@ -2387,46 +2387,58 @@ func ruleCmpMixed(p *Prog, r *Result) {
 		return
 	}
 	tpParam, lp, rp := fn.Params[1], fn.Params[2], fn.Params[3]
-	for _, lk := range []string{"int", "float"} {
-		for _, rk := range []string{"int", "float"} {
-			as := &assumption{p: p}
-			as.leaf = func(f *ssa.Function, v ssa.Value, bound map[*ssa.Parameter]string) (aval, bool) {
-				if f == fn && v == ssa.Value(tpParam) {
-					return aval{kind: 1, i: tnum}, true
+	tstr, _ := p.constOf("TSTR")
+	// declared: the type the column was declared with. A field access (json(value)['n'], list[1]) is declared as
+	// text whatever it yields, so numbers also arrive under the declared type text - and must still be compared
+	for _, declared := range []struct {
+		name string
+		code int64
+	}{{"", tnum}, {"|declared=TSTR", tstr}} {
+		for _, lk := range []string{"int", "float"} {
+			for _, rk := range []string{"int", "float"} {
+				declared := declared
+				as := &assumption{p: p}
+				as.leaf = func(f *ssa.Function, v ssa.Value, bound map[*ssa.Parameter]string) (aval, bool) {
+					if f == fn && v == ssa.Value(tpParam) {
+						return aval{kind: 1, i: declared.code}, true
+					}
+					return aval{}, false
 				}
-				return aval{}, false
-			}
-			as.typeTest = func(f *ssa.Function, ta *ssa.TypeAssert, bound map[*ssa.Parameter]string) (abool, bool) {
-				pa, ok := stripConv(ta.X).(*ssa.Parameter)
-				if !ok || bound[pa] == "" {
-					return abBoth, false
-				}
-				bt, isB := ta.AssertedType.(*types.Basic)
-				if !isB {
+				as.typeTest = func(f *ssa.Function, ta *ssa.TypeAssert, bound map[*ssa.Parameter]string) (abool, bool) {
+					pa, ok := stripConv(ta.X).(*ssa.Parameter)
+					if !ok || bound[pa] == "" {
+						return abBoth, false
+					}
+					bt, isB := ta.AssertedType.(*types.Basic)
+					if !isB {
+						return abFalse, true
+					}
+					if (bound[pa] == "int" && bt.Kind() == types.Int64) || (bound[pa] == "float" && bt.Kind() == types.Float64) {
+						return abTrue, true
+					}
 					return abFalse, true
 				}
-				if (bound[pa] == "int" && bt.Kind() == types.Int64) || (bound[pa] == "float" && bt.Kind() == types.Float64) {
-					return abTrue, true
+				as.bind = func(f *ssa.Function, arg ssa.Value, bound map[*ssa.Parameter]string) string {
+					if pa, ok := stripConv(arg).(*ssa.Parameter); ok {
+						return bound[pa]
+					}
+					return ""
 				}
-				return abFalse, true
+				res := as.run(fn, map[*ssa.Parameter]string{lp: lk, rp: rk})
+				bad := ""
+				for _, ret := range res.rets {
+					if len(ret.Results) != 1 {
+						continue
+					}
+					if c, ok := constInt(retVal(ret, 0)); ok && c == 0 {
+						bad = "the constant 0 (`equal`) is returned at " + p.InstrPos(ret)
+					}
+					if ev := res.ev(retVal(ret, 0)); ev.kind == 1 && ev.i == 0 {
+						bad = "the value returned at " + p.InstrPos(ret) + " is the constant 0 (`equal`) of a helper that has no case for numbers"
+					}
+				}
+				r.add(bad == "", fmt.Sprintf("%s|left=%s,right=%s%s", p.FName(fn), lk, rk, declared.name), p.Pos(fn.Pos()), firstNonEmpty(bad, "the outcome comes from a comparison helper"))
 			}
-			as.bind = func(f *ssa.Function, arg ssa.Value, bound map[*ssa.Parameter]string) string {
-				if pa, ok := stripConv(arg).(*ssa.Parameter); ok {
-					return bound[pa]
-				}
-				return ""
-			}
-			res := as.run(fn, map[*ssa.Parameter]string{lp: lk, rp: rk})
-			bad := ""
-			for _, ret := range res.rets {
-				if len(ret.Results) != 1 {
-					continue
-				}
-				if c, ok := constInt(retVal(ret, 0)); ok && c == 0 {
-					bad = "the constant 0 (`equal`) is returned at " + p.InstrPos(ret)
-				}
-			}
-			r.add(bad == "", fmt.Sprintf("%s|left=%s,right=%s", p.FName(fn), lk, rk), p.Pos(fn.Pos()), firstNonEmpty(bad, "the outcome comes from a comparison helper"))
 		}
 	}
 }
@@ -3243,4 +3255,259 @@ func isCompareHelperCall(p *Prog, c *ssa.Call) bool {
 		return false
 	}
 	return all(c.Call.Value, 0)
+}
+
+// ---------------- AGGRPLACE ----------------
+
+func init() {
+	register("AGGRPLACE", "an aggregate function is only computed for select fields (the plan builder looks for aggregate calls there and nowhere else), but its name has a static type everywhere, so the type checker alone accepts `where count(1) > 0`, `remove count(1)` or `put ('a', count(1))` - statements that fail with `Cannot find function` once rows are read. Wherever a statement expression is type-checked outside the Check methods themselves (the Validate methods and their helpers, the WHERE clause in Parse), the same expression is also handed to a placement check: a package function with an error result that can reach the aggregate registry test", ruleAggrPlace)
+}
+
+func ruleAggrPlace(p *Prog, r *Result) {
+	placement := map[*ssa.Function]bool{}
+	for _, f := range p.Funcs {
+		res := f.Signature.Results()
+		if res.Len() != 1 || res.At(0).Type().String() != "error" || f.Name() == "Check" {
+			continue
+		}
+		hasExpr := false
+		for i := 0; i < f.Signature.Params().Len(); i++ {
+			if typeName(f.Signature.Params().At(i).Type()) == "Expression" {
+				hasExpr = true
+			}
+		}
+		if !hasExpr {
+			continue
+		}
+		for _, g := range p.staticClosure(f, 3, nil) {
+			if g.Name() == "IsAggrFuncExpr" || g.Name() == "IsAggrFunc" {
+				placement[f] = true
+			}
+		}
+	}
+	var sig func(v ssa.Value, d int) string
+	sig = func(v ssa.Value, d int) string {
+		if d > 6 {
+			return "?"
+		}
+		v = stripConv(v)
+		switch x := v.(type) {
+		case *ssa.Parameter:
+			return x.Name()
+		case *ssa.UnOp:
+			switch a := x.X.(type) {
+			case *ssa.FieldAddr:
+				_, f, _, _ := fieldOfAddr(a)
+				return sig(a.X, d+1) + "." + f
+			case *ssa.IndexAddr:
+				return sig(a.X, d+1) + "[]"
+			}
+		case *ssa.FieldAddr:
+			_, f, _, _ := fieldOfAddr(x)
+			return sig(x.X, d+1) + "." + f
+		case *ssa.Extract:
+			return sig(x.Tuple, d+1)
+		case *ssa.Call:
+			if g := x.Call.StaticCallee(); g != nil {
+				return g.Name() + "()"
+			}
+		case *ssa.Alloc:
+			return "new " + typeName(deref(x.Type()))
+		}
+		return v.Name()
+	}
+	n := 0
+	for _, fn := range p.Funcs {
+		if fn.Name() == "Check" || strings.HasPrefix(fn.Name(), "check") || strings.HasPrefix(fn.Name(), "tryRewrite") || placement[fn] {
+			continue
+		}
+		placed := map[string]bool{}
+		allInstrs(fn, func(in ssa.Instruction) {
+			c, ok := in.(*ssa.Call)
+			if !ok {
+				return
+			}
+			g := c.Call.StaticCallee()
+			if g == nil || !placement[g] {
+				return
+			}
+			for _, a := range c.Call.Args {
+				if typeName(a.Type()) == "Expression" {
+					placed[sig(a, 0)] = true
+				}
+			}
+		})
+		idx := 0
+		allInstrs(fn, func(in ssa.Instruction) {
+			c, ok := in.(*ssa.Call)
+			if !ok || !c.Call.IsInvoke() || c.Call.Method.Name() != "Check" || typeName(c.Call.Value.Type()) != "Expression" {
+				return
+			}
+			idx++
+			n++
+			s := sig(c.Call.Value, 0)
+			r.add(placed[s], fmt.Sprintf("%s|%s#%d", p.FName(fn), s, idx), p.InstrPos(in), "the expression that is type-checked here is also handed to a check of where aggregate calls stand (an aggregate outside an evaluated select-field position passes the type check and fails when the first row is read)")
+		})
+	}
+	r.floor("statement expressions type-checked outside Check methods", n, 5)
+}
+
+// ---------------- ALIASWALK ----------------
+
+func init() {
+	register("ALIASWALK", "an alias reference points into the tree of another select field, so the tree is a DAG: `a0+a0 as a1, a1+a1 as a2, ...` reaches a0 over 2^n paths. Whatever follows a reference visits its target once: a function that loads FieldReferenceExpr.FieldExpr and hands it to a call consults a map keyed by that target first (evaluation is covered by the context memo of ROWCACHE, ReturnType by asking at most one operand per operator); a callback handed to the generic Walk recognises references and keeps such a map", ruleAliasWalk)
+}
+
+var aliasWalkExempt = map[string]string{
+	"(*Optimizer).canOptimizeDeletePlanToRemovePlan": "walks the WHERE tree of a DELETE: a DELETE has no select fields, so the checker never rewrites a name into a reference there",
+}
+
+func ruleAliasWalk(p *Prog, r *Result) {
+	isTargetLoad := func(v ssa.Value) bool {
+		return isFieldLoad(stripConv(v), "FieldReferenceExpr", "FieldExpr")
+	}
+	n := 0
+	for _, fn := range p.Funcs {
+		recvName := ""
+		if fn.Signature.Recv() != nil {
+			recvName = typeName(deref(fn.Signature.Recv().Type()))
+		}
+		follows, comesBack := "", false
+		allInstrs(fn, func(in ssa.Instruction) {
+			ci, ok := in.(ssa.CallInstruction)
+			if !ok {
+				return
+			}
+			cc := ci.Common()
+			hit := cc.IsInvoke() && isTargetLoad(cc.Value)
+			for _, a := range cc.Args {
+				if isTargetLoad(a) {
+					hit = true
+				}
+			}
+			if !hit {
+				return
+			}
+			follows = p.InstrPos(in)
+			// only a walk that can come back to this function multiplies: handing the target to a function that
+			// never returns here is a single visit (that function has its own obligation)
+			callees := p.Callees(ci)
+			if len(callees) == 0 {
+				comesBack = true
+			}
+			for _, g := range callees {
+				if g == fn || p.Reach([]*ssa.Function{g}, nil)[fn] {
+					comesBack = true
+				}
+			}
+		})
+		if follows == "" {
+			continue
+		}
+		n++
+		key := p.FName(fn) + "|follows"
+		switch {
+		case recvName == "FieldReferenceExpr" && (fn.Name() == "Execute" || fn.Name() == "ExecuteBatch"):
+			r.add(true, key, follows, "evaluation: memoised per row / per chunk in the context (ROWCACHE memo-context, chunk caches)")
+		case recvName == "FieldReferenceExpr" && fn.Name() == "Walk":
+			r.add(true, key, follows, "the generic traversal: the obligation is on the callbacks handed to Walk")
+		case recvName == "FieldReferenceExpr" && fn.Name() == "ReturnType":
+			// linear as long as no operator asks more than one operand for its type on a path
+			bad := ""
+			if bt := p.MethodByName("BinaryOpExpr", "ReturnType"); bt != nil {
+				cnt := 0
+				allInstrs(bt, func(in ssa.Instruction) {
+					if c, ok := in.(*ssa.Call); ok && c.Call.IsInvoke() && c.Call.Method.Name() == "ReturnType" {
+						cnt++
+					}
+				})
+				if cnt > 1 {
+					bad = fmt.Sprintf("(*BinaryOpExpr).ReturnType asks %d operands for their types: through references that is 2^n", cnt)
+				}
+			}
+			r.add(bad == "", key, follows, firstNonEmpty(bad, "static typing follows a reference, and an operator asks at most one operand for its type"))
+		case !comesBack:
+			r.add(true, key, follows, "hands the target to a function that never comes back here: one visit per reference")
+		default:
+			memo := false
+			allInstrs(fn, func(in ssa.Instruction) {
+				if lk, ok := in.(*ssa.Lookup); ok {
+					if _, isMap := lk.X.Type().Underlying().(*types.Map); isMap && isTargetLoad(lk.Index) {
+						memo = true
+					}
+				}
+			})
+			r.add(memo, key, follows, "a function that follows an alias reference looks its target up in a map of the targets already visited (the fields form a DAG: without it a chain of fields that use each other twice is walked 2^n times)")
+		}
+	}
+	// callbacks handed to Walk
+	for _, fn := range p.Funcs {
+		if fn.Name() == "Walk" {
+			continue
+		}
+		idx := 0
+		allInstrs(fn, func(in ssa.Instruction) {
+			ci, ok := in.(ssa.CallInstruction)
+			if !ok {
+				return
+			}
+			cc := ci.Common()
+			name := ""
+			if cc.IsInvoke() {
+				name = cc.Method.Name()
+			} else if g := cc.StaticCallee(); g != nil {
+				name = g.Name()
+			}
+			if name != "Walk" {
+				return
+			}
+			idx++
+			n++
+			key := fmt.Sprintf("%s|walk#%d", p.FName(fn), idx)
+			root := fn
+			for root.Parent() != nil {
+				root = root.Parent()
+			}
+			if why, ex := aliasWalkExempt[p.FName(root)]; ex {
+				r.Exempt = append(r.Exempt, key+": "+why)
+				return
+			}
+			okv := false
+			for _, a := range cc.Args {
+				for {
+					if ct, ok := a.(*ssa.ChangeType); ok {
+						a = ct.X
+						continue
+					}
+					break
+				}
+				var cb *ssa.Function
+				switch x := a.(type) {
+				case *ssa.MakeClosure:
+					cb = x.Fn.(*ssa.Function)
+				case *ssa.Function:
+					cb = x
+				}
+				if cb == nil {
+					continue
+				}
+				sees, memo := false, false
+				allInstrs(cb, func(x ssa.Instruction) {
+					if ta, ok := x.(*ssa.TypeAssert); ok && typeName(deref(ta.AssertedType)) == "FieldReferenceExpr" {
+						sees = true
+					}
+					if lk, ok := x.(*ssa.Lookup); ok {
+						if _, isMap := lk.X.Type().Underlying().(*types.Map); isMap && isTargetLoad(lk.Index) {
+							memo = true
+						}
+					}
+				})
+				if sees && memo {
+					okv = true
+				}
+			}
+			r.add(okv, key, p.InstrPos(in), "the callback handed to Walk recognises alias references and cuts the walk at a target it has already visited")
+		})
+	}
+	r.floor("functions following alias references, and Walk callers", n, 4)
 }
